@@ -22,8 +22,8 @@ from ..core import pool_map
 
 MODULE = "modem/Ofdm.tla"
 DEVS = ["FreqResponseTruncates", "DcNotSkipped", "MapOffByOne", "CpFromHead", "ScaleNotInverted", "SymbolsFloor",
-        "MemoryExceedsCp"]
-INVS = ["IndexMap", "ParamLaw", "PadLaw", "LenLaw", "PrefixIsTail", "DcAndGuardsEmpty", "CircularUnderCP",
+        "MemoryExceedsCp", "MemoNumbersByUsedOnly", "RejectedSetHalfUpdates"]
+INVS = ["ObjectCoherent", "IndexMap", "ParamLaw", "PadLaw", "LenLaw", "PrefixIsTail", "DcAndGuardsEmpty", "CircularUnderCP",
         "WindowAligned", "UnmapReadsMap", "FreqIsHTimesX", "RoundTrip", "OneTapExact"]
 # which laws refute which deviation (TLC stops at the first violated invariant of the list it finds)
 DEV_REFUTED_BY = {
@@ -34,8 +34,17 @@ DEV_REFUTED_BY = {
     "ScaleNotInverted": ({(4, 1, 2)}, {"RoundTrip", "OneTapExact"}),
     "SymbolsFloor": ({(4, 1, 2)}, {"PadLaw", "LenLaw"}),
     "MemoryExceedsCp": ({(4, 1, 4)}, {"CircularUnderCP", "FreqIsHTimesX", "OneTapExact"}),
+    # history flags: refuted on the live-object machine (configs = the valid set of the history)
+    "MemoNumbersByUsedOnly": ({(4, 1, 4), (8, 2, 4)}, {"IndexMap", "DcAndGuardsEmpty"}),
+    "RejectedSetHalfUpdates": ({(4, 1, 4), (8, 2, 4)}, {"ObjectCoherent"}),
 }
-ACTIONS = ["Start", "MapStar", "ParamStar", "Pad", "Map", "Ifft", "AddCP", "Loop", "Transmit", "Crop", "RemoveCP",
+HIST_DEVS = {"MemoNumbersByUsedOnly", "RejectedSetHalfUpdates"}
+# the quick history alphabet: the same used count under the all-carriers branch and under the centred branch at two fft
+# sizes (both orders occur), a change of every parameter, the smallest size; rejected calls: odd used, used > fft (both
+# with a valid <<fft, cp>> that differs from most current ones), cp > fft, used = 0
+HIST_VALID = [(4, 1, 4), (8, 2, 4), (8, 3, 8), (4, 0, 2), (2, 2, 2)]
+HIST_BAD = [(8, 1, 3), (4, 2, 6), (8, 9, 4), (2, 1, 0)]
+ACTIONS = ["Construct", "SetParameters", "StartLive", "Start", "MapStar", "ParamStar", "Pad", "Map", "Ifft", "AddCP", "Loop", "Transmit", "Crop", "RemoveCP",
            "Fft", "Unmap", "Equalize"]
 TOL = 1e-9
 # 16+ JVMs run side by side (one TLC worker each): keep their GC / JIT helper threads from oversubscribing the cores
@@ -44,13 +53,14 @@ FID = "FreqResponseTruncates"
 
 
 def model(configs=(), mapffts=(), paramffts=(), lenmode="two", patmode="dense", ndense=1, laymode="three",
-          block=False, seed=0, dev=(), emit=True):
+          block=False, seed=0, dev=(), emit=True, histvalid=(), histbad=(), histmax=0):
     d = {k: (k in dev) for k in DEVS}
     st = lambda xs: tlc.tla(set(xs)) if xs else "{}"
     defs = {"Configs": st([tuple(c) for c in configs]), "MapFfts": st(mapffts), "ParamFfts": st(paramffts),
-            "Dev": tlc.tla(d)}
+            "HistValid": st([tuple(c) for c in histvalid]), "HistBad": st([tuple(c) for c in histbad]), "Dev": tlc.tla(d)}
     cfg = tlc.cfg_text(constants={"LenMode": tlc.tla(lenmode), "PatMode": tlc.tla(patmode), "NDense": str(ndense),
-                                  "LayMode": tlc.tla(laymode), "Block": tlc.tla(bool(block)), "Seed": str(seed % 1000)},
+                                  "LayMode": tlc.tla(laymode), "Block": tlc.tla(bool(block)), "Seed": str(seed % 1000),
+                                  "HistMax": str(histmax)},
                        defs=defs, invariants=INVS + (["Emit"] if emit else []))
     return cfg, defs
 
@@ -148,12 +158,14 @@ class Bad(Exception):
         self.fid = fid
 
 
-def run_modulator(m):
-    """m: step -> emitted edge of the modulator half.  Returns (ofdm object, emitted signal) or raises Bad."""
+def run_modulator(m, o=None):
+    """m: step -> emitted edge of the modulator half.  Returns (ofdm object, emitted signal) or raises Bad.
+    `o`: the live object of a history (already configured through the calls of the history); else a fresh one."""
     from pyphysim.modulators.ofdm import OFDM
     N, cp, u, L, _ = m["input"]["id"]
     exact = m["input"]["exact"]
-    o = OFDM(N, cp, u)
+    if o is None:
+        o = OFDM(N, cp, u)
     idx = [int(i) for i in o.get_used_subcarrier_indexes()]
     if idx != m["map"]["out"]["idx"]:
         raise Bad(f"Map: get_used_subcarrier_indexes() = {idx}, specified {m['map']['out']['idx']}")
@@ -293,13 +305,13 @@ def run_random(o, m, d, rng, known):
         raise Bad("OneTapExact (random complex data and taps): equalised symbols are not the transmitted symbols")
 
 
-def check_chain(case):
+def check_chain(case, o=None):
     """case = {"mod": {step: edge}, "rcv": [ {step: edge}, ... ]} -> list of (what, fid, receiver index)"""
     m = case["mod"]
     bad = []
     rng = np.random.RandomState((case.get("seed", 0) * 7919 + sum((i + 1) * int(v) for i, v in enumerate(m["input"]["id"][:4]))) % (2 ** 31))
     try:
-        o, tx, _ = run_modulator(m)
+        o, tx, _ = run_modulator(m, o)
     except Bad as b:
         return [(b.what, b.fid, -1)], 0
     except Exception as ex:  # the real code must not raise on a valid configuration
@@ -317,6 +329,46 @@ def check_chain(case):
             bad.append((f"receiver raised {type(ex).__name__}: {ex}", None, i))
         bad += [(w, FID, i) for w in known[:1]]
     return bad, okc
+
+
+def check_history(h):
+    """h = {"steps": [{"call": edge, "chains": [chain, ...]}, ...], "seed": n}: ONE live object; after every call
+    (constructor, accepted or rejected set_parameters) its parameters and a full chain are compared with what the
+    history demands.  Returns ([(what, fid)], number of chains executed, index of the failing step or -1)."""
+    from pyphysim.modulators.ofdm import OFDM
+    o = None
+    okc = 0
+    done = []
+    for k, st in enumerate(h["steps"]):
+        c = st["call"]["out"]["call"]
+        acc = st["call"]["out"]["accepted"]
+        done.append(tuple(c))
+        try:
+            if o is None:
+                o = OFDM(*c)
+                raised = False
+            else:
+                try:
+                    o.set_parameters(*c)
+                    raised = False
+                except ValueError:
+                    raised = True
+        except Exception as ex:
+            return [(f"history {done}: call raised {type(ex).__name__}: {ex}", None)], okc, k
+        if raised == acc:
+            return [(f"history {done}: set_parameters{tuple(c)} {'rejected' if raised else 'accepted'}, specified "
+                     f"{'accepted' if acc else 'rejected (ValueError)'}", None)], okc, k
+        got = [int(o.fft_size), int(o.cp_size), int(o.num_used_subcarriers)]
+        if got != st["call"]["out"]["want"]:
+            return [(f"history {done}: object holds (fft, cp, used) = {got}, the history demands {st['call']['out']['want']}"
+                     + ("" if acc else " (a rejected set_parameters must leave the object unchanged)"), None)], okc, k
+        for ch in st["chains"]:
+            ch["seed"] = h.get("seed", 0)
+            bad, n = check_chain(ch, o)
+            okc += n
+            if bad:
+                return [(f"history {done}: chain on the live object: {w}", fid) for w, fid, _ in bad[:1]], okc, k
+    return [], okc, -1
 
 
 def check_star(e):
@@ -339,25 +391,46 @@ def check_star(e):
 
 # ------------------------------------------------------------------ one partition: TLC + replay
 def chains(emitted):
-    mods, rcvs, stars = {}, {}, []
+    """-> (chains of fresh objects, star cases, histories of live objects)"""
+    mods, rcvs, stars, calls = {}, {}, [], {}
     for e in emitted:
         st = e["step"]
         if st in ("mapcase", "param"):
             stars.append(e)
             continue
-        key = tlc.json.dumps(e["id"])
+        if st == "call":
+            calls[tlc.json.dumps(e["hist"])] = e
+            continue
+        key = tlc.json.dumps([e["hist"], e["id"]])
         if st in ("input", "pad", "map", "ifft", "cp"):
             mods.setdefault(key, {})[st] = e
         else:
             rcvs.setdefault(key, {}).setdefault(tlc.json.dumps(e["ch"], sort_keys=True), {})[st] = e
-    out = []
+    out, live = [], {}
     for key, m in mods.items():
         if len(m) != 5:
             raise tlc.TlcError(f"incomplete modulator chain emitted for {key}: {sorted(m)}")
         # loopback first, then the channels in a fixed order
-        out.append({"mod": m, "rcv": [d for _, d in sorted(rcvs.get(key, {}).items(),
-                                                            key=lambda kv: (bool(kv[1]["rx"]["ch"]["taps"]), kv[0]))]})
-    return out, stars
+        c = {"mod": m, "rcv": [d for _, d in sorted(rcvs.get(key, {}).items(),
+                                                    key=lambda kv: (bool(kv[1]["rx"]["ch"]["taps"]), kv[0]))]}
+        if m["input"]["hist"]:
+            live.setdefault(tlc.json.dumps(m["input"]["hist"]), []).append(c)
+        else:
+            out.append(c)
+    # a history = a maximal sequence of calls; every prefix has its own call edge and its own chains
+    longest = max([len(e["hist"]) for e in calls.values()], default=0)
+    hists = []
+    for k, e in sorted(calls.items()):
+        if len(e["hist"]) != longest:
+            continue
+        steps = []
+        for n in range(1, longest + 1):
+            pk = tlc.json.dumps(e["hist"][:n])
+            if pk not in calls or pk not in live:
+                raise tlc.TlcError(f"history prefix {pk} was not emitted completely")
+            steps.append({"call": calls[pk], "chains": live[pk]})
+        hists.append({"steps": steps})
+    return out, stars, hists
 
 
 def _tlc_cached(cfg, defs, timeout):
@@ -398,7 +471,7 @@ def partition(job):
            "viol": [], "ok": 0, "chains": 0, "keys": [], "sample": None, "excluded": 0}
     if r.violated:
         return res
-    cs, stars = chains(r.emitted)
+    cs, stars, hists = chains(r.emitted)
     for e in stars:
         w = check_star(e)
         if w:
@@ -424,13 +497,30 @@ def partition(job):
                              "channel": d["rx"]["ch"], "steps": sorted(list(c["mod"]) + list(d)),
                              "ps": c["mod"]["cp"]["ps"],
                              "tx_first_samples_cyc2": c["mod"]["cp"]["out"]["tx"][:3]}
+    for h in hists:
+        h["seed"] = kw.get("seed", 0)
+        bad, okc, k = check_history(h)
+        calls_ = [tuple(st["call"]["out"]["call"]) for st in h["steps"]]
+        res["histories"] = res.get("histories", 0) + 1
+        res["chains"] += sum(1 + len(c["rcv"]) for st in h["steps"] for c in st["chains"])
+        res["ok"] += okc
+        res["keys"].append("history" + repr(calls_))
+        for what, fid in bad[:1]:
+            res["viol"].append((what, fid, {"history": {"steps": h["steps"][:k + 1], "seed": h["seed"]}}))
+        if bad == [] and res["sample"] is None:
+            res["sample"] = {"history": calls_, "accepted": [st["call"]["out"]["accepted"] for st in h["steps"]],
+                             "demanded_parameters_after_each_call": [st["call"]["out"]["want"] for st in h["steps"]]}
     return res
 
 
 def dev_job(job):
     dev, configs, allowed = job
-    cfg, defs = model(configs=configs, mapffts=[4, 8], lenmode="two", patmode="dense", laymode="three", dev=[dev],
-                      emit=False)
+    if dev in HIST_DEVS:
+        cfg, defs = model(histvalid=configs, histbad=HIST_BAD[:2], histmax=3, lenmode="isi", patmode="dense", laymode="none",
+                          dev=[dev], emit=False)
+    else:
+        cfg, defs = model(configs=configs, mapffts=[4, 8], lenmode="two", patmode="dense", laymode="three", dev=[dev],
+                          emit=False)
     r = tlc.run(MODULE, cfg, defs=defs, workers=2, env=JVM_ENV)
     return dev, r.violated, r.generated, r.distinct, sorted(allowed)
 
@@ -483,6 +573,9 @@ def plan(tier, seed):
         # the complete unit basis of the taps (+ the three layouts), static and block-static, two lengths
         add("tap-sweep", pow2, 4, 1.0, cost_basis, lenmode="two", patmode="dense", ndense=1, laymode="basis", block=True)
         add("non-pow2", np2, 1, 1e6, lenmode="two", patmode="dense", ndense=1, laymode="three", block=True)
+        # ONE live object: every history of 3 calls over 5 valid + 4 invalid parameter sets, full chain after every call
+        jobs.append({"label": "history", "w": 1e11, "model": dict(histvalid=HIST_VALID, histbad=HIST_BAD, histmax=3, seed=seed,
+                                                                   lenmode="isi", patmode="dense", ndense=1, laymode="one")})
     else:
         p16 = configs_of([16])
         # fft 16: every length, complete data basis; every tap layout of <= 3 taps; complete tap basis, block-static
@@ -556,6 +649,12 @@ def _dispatch(t):
 
 def replay(ctx, data):
     c = data["case"]
+    if "history" in c:
+        bad, okc, _ = check_history(c["history"])
+        ctx.ok(n=okc)
+        for what, fid in bad:
+            report(ctx, what, fid, c, "replay")
+        return
     if "star" in c:
         w = check_star(c["star"])
         if w:
